@@ -293,6 +293,7 @@ fn nt_c10(s: &Stats) -> bool {
 fn p_c11() -> Profile {
     let mut p = Profile::base();
     p.blob = Tri::Maybe;
+    p.bulk_prelude = true;
     p.filter_fn = Tri::Never;
     p.max_ops = 45;
     p.w[W_SCAN] = 6;
